@@ -759,13 +759,21 @@ class Plane(Generic[LTComponentT]):
     which is sorted by its x or y coordinate.
     """
 
+    MAX_CELLS = 1000
+
     def __init__(self, bbox: Rect, gridsize: int = 50) -> None:
         # preserve the object order (insertion-ordered, each object once).
         self._seq: Dict[LTComponentT, None] = {}
         self._objs: Set[LTComponentT] = set()
         self._grid: Dict[Point, List[LTComponentT]] = {}
-        self.gridsize = gridsize
         (self.x0, self.y0, self.x1, self.y1) = bbox
+        # Never more than MAX_CELLS x MAX_CELLS cells: on an absurdly large
+        # plane (e.g. a corrupted MediaBox) a single object could otherwise
+        # cover billions of cells.
+        extent = max(self.x1 - self.x0, self.y1 - self.y0)
+        if math.isfinite(extent) and extent > gridsize * self.MAX_CELLS:
+            gridsize = math.ceil(extent / self.MAX_CELLS)
+        self.gridsize = gridsize
 
     def __repr__(self) -> str:
         return "<Plane objs=%r>" % list(self)
